@@ -4,13 +4,15 @@ import MsqModel.Driver.CmdScan
 import MsqModel.Driver.CmdAnalyze
 import MsqModel.Driver.CmdCache
 import MsqModel.Driver.CmdImm
+import MsqModel.Driver.CmdConv
+import MsqModel.Driver.CmdSpec
 /-!
 Driver commands contributed by other modules: add `import MsqModel.Driver.CmdXxx` here and its handler to `handlers`.
 A handler returns `none` for a request that is not its own.
 -/
 namespace Drv
 
-def handlers : List (List String → Option String) := [cmdAnalyze, cmdCache, cmdScan, cmdCount, cmdImm]
+def handlers : List (List String → Option String) := [cmdAnalyze, cmdCache, cmdScan, cmdCount, cmdImm, cmdConv, cmdSpec]
 
 def dispatchExt (parts : List String) : String :=
   match handlers.findSome? (fun h => h parts) with
